@@ -96,7 +96,7 @@ def oracle_case(case, lat):
             f = ('raised.' + type(e).__name__, str(e)[:200])
         if f:
             qmin = [f[2]] if len(f) > 2 else [q]
-            out.append((f[0] + tag, f[1], qmin))
+            out.append((f[0] + (tag if q[0] in ('coup', 'coupall', 'multi') else ''), f[1], qmin))
     return out
 
 
@@ -255,6 +255,7 @@ def process_chunk(args):
     """Worker: evaluate cases on the real code + oracle, run the Lean model on the same cases, diff."""
     cases, use_model, do_shrink = args
     res = core.Result()
+    shrunk = set()
     evals = [eval_case(c) for c in cases]
     models = [None] * len(cases)
     if use_model:
@@ -276,21 +277,31 @@ def process_chunk(args):
             if sig in seen:
                 continue
             seen.add(sig)
-            small = shrink(case, sig, qmin) if do_shrink else dict(case, q=qmin)
+            if do_shrink and sig not in shrunk:
+                shrunk.add(sig)
+                small = shrink(case, sig, qmin)
+            else:
+                small = dict(case, q=qmin)
             res.fail('property', sig, detail, small)
         if mod is not None:
             res.traces_validated += 1
-            if ev['oracle']:
-                continue
             if 'error' in mod or '_raw' in mod:
                 res.fail('correspondence', 'model.error', str(mod)[:300], case)
                 continue
             for k, (q, a, m) in enumerate(zip(case['q'], ev['answers'], mod['r'])):
                 if isinstance(a, dict) and 'raised' in a:
                     # the real code raised: only acceptable where the model flags an error too
-                    if m != 'error':
+                    mm = m[0] if q[0] == 'masked' and isinstance(m, list) and len(m) == 2 else m
+                    if mm != 'error':
                         res.fail('correspondence', f'impl-raised.{q[0]}.{a["raised"]}', a['msg'], dict(case, q=[q]))
                     continue
+                if q[0] == 'masked' and isinstance(m, list) and len(m) == 2:
+                    # model answers [as coded, with pending_fixes/C19-masked-shape.diff]; either tree is accepted
+                    which = 'as-coded' if a == m[0] else 'repaired' if a == m[1] else None
+                    if which:
+                        res.count('masked.matches=' + which)
+                        continue
+                    m = m[0]
                 if a != m:
                     if q[0] == 'coupall':
                         # locate the first differing (u1, u2, dx)
